@@ -101,17 +101,21 @@ def py_equal_but_type_differs(a, b):
 
 
 class History:
-    def __init__(self, ctx, nproj=1):
+    def __init__(self, ctx, nproj=1, rel=False):
         import signac
 
         self.signac = signac
         self.ctx = ctx
         self.roots = []
         self.projects = []
+        # rel: the session names its projects by paths relative to the working directory it starts in and works
+        # from other directories afterwards (op chdir); run_history() restores the working directory
+        self.rel = bool(rel)
         for _ in range(nproj):
             r = ctx.tmpdir("hist")
             self.roots.append(r)
-            self.projects.append(signac.init_project(r))
+            signac.init_project(r)
+            self.projects.append(self._open_project(r))
         self.model = [dict() for _ in range(nproj)]
         self.handles = []
         self.groups = 0
@@ -324,9 +328,27 @@ class History:
         h = live[op.get("h", 0) % len(live)]
         self.handles[self.handles.index(h)] = None
 
+    def _open_project(self, root):
+        if not self.rel:
+            return self.signac.Project(root)
+        os.chdir(os.path.dirname(root))
+        try:
+            return self.signac.Project(os.path.basename(root))
+        finally:
+            os.chdir("/")
+
+    def op_chdir(self, op):
+        """The session changes its working directory (absolute paths everywhere: nothing may depend on it)."""
+        if not self.rel:
+            return
+        p = op.get("p", 0) % len(self.projects)
+        where = ["/", os.path.dirname(self.roots[p]), self.roots[p], os.path.join(self.roots[p], "workspace")][op.get("k", 0) % 4]
+        if os.path.isdir(where):
+            os.chdir(where)
+
     def op_new_project(self, op):
         p = op.get("p", 0) % len(self.projects)
-        self.projects[p] = self.signac.Project(self.roots[p])
+        self.projects[p] = self._open_project(self.roots[p])
 
     def op_update_cache(self, op):
         p = op.get("p", 0) % len(self.projects)
@@ -1197,9 +1219,19 @@ TOLERATED = ("sp_reset_type_only", "lock_registry_keyerror")
 
 
 def run_history(case, ctx, every_step=True):
-    hist = History(ctx, nproj=2 if case.get("two_projects") else 1)
+    cwd0 = os.getcwd()
+    try:
+        return _run_history(case, ctx, every_step)
+    finally:
+        os.chdir(cwd0)
+
+
+def _run_history(case, ctx, every_step=True):
+    hist = History(ctx, nproj=2 if case.get("two_projects") else 1, rel=case.get("relproj"))
     if case.get("two_projects"):
         hist.cl.add("two_projects")
+    if hist.rel:
+        hist.cl.add("project_named_by_relative_path")
     ops = [o for o in case.get("ops", []) if isinstance(o, dict)]
     for i, op in enumerate(ops):
         hist.step = i
